@@ -350,7 +350,9 @@ Fixpoint expand_f (fuel : nat) (tmpl : name) (re : cregex) (s : name) (a b cs ce
           match ds, rest with
           | _ :: _, 125%N :: rest' =>
               let n := digits_val ds 0 in
-              (if N.eqb n 0 then slice s a b
+              (* "disallow leading zeros": ${00}, ${01} name a (non-existent) named group *)
+              (if match ds with 48%N :: _ :: _ => true | _ => false end then []
+               else if N.eqb n 0 then slice s a b
                else if N.eqb n 1 && has_group re then slice s cs ce else [])
               ++ expand_f f rest' re s a b cs ce
           | _, _ => 36%N :: expand_f f (123%N :: r) re s a b cs ce
